@@ -383,3 +383,6 @@ Proof.
   destruct (monitor_step_nf m evs stored) as [m'|v] eqn:E; [|reflexivity].
   f_equal. apply IH. eapply monitor_step_nf_good; eassumption.
 Qed.
+
+Lemma monitor_nf_complete0 obs : monitor_nf mon0 obs = monitor mon0 (complete_obs mon0 obs).
+Proof. apply monitor_nf_complete. apply mon0_good. Qed.
